@@ -19,7 +19,8 @@ RULE = ("(kernel) Hypothesis-generated v spaces (4-16 points, uniform cubic, or 
         "independent collocation solve, exact Gauss-Legendre integrals), analytic integrals of polynomials, linearity, "
         "perturbed density of the tabulated equilibrium exactly 0.  (grid) DensityFinder.getRho/getPerturbedRho on "
         "simulated worlds over generated process grids vs the global reference with the equilibrium of each point's own "
-        "GLOBAL radius.  Non-trivial = non-polynomial f (kernel); r split over >=2 ranks (a block not starting at "
+        "GLOBAL radius; each density grid is pre-filled with a sentinel, and a second finder built from the same velocity "
+        "spline object is used before the first one is used again.  Non-trivial = non-polynomial f (kernel); r split over >=2 ranks (a block not starting at "
         "radius 0) (grid).")
 ASSUMPTIONS = ["condition-aware tolerance; cond > 1e10 inconclusive", "simulated MPI for the grid-level sub-check"]
 
@@ -151,6 +152,15 @@ def _grid_rank(ctx, c):
     rho.getAllData()[:] = stale
     df.getRho(f, rho)
     out["full"] = sim.piece(rho)
+    # a second finder built from the same velocity spline object, then the first one again: neither may disturb
+    # the other (they share the BSplines object and whatever it caches)
+    df2 = DensityFinder(6, f.getSpline(3), eta, consts)
+    rho.getAllData()[:] = stale
+    df2.getPerturbedRho(f, rho)
+    out["pert_second_finder"] = sim.piece(rho)
+    rho.getAllData()[:] = stale
+    df.getPerturbedRho(f, rho)
+    out["pert_first_again"] = sim.piece(rho)
     return out
 
 
@@ -164,7 +174,9 @@ def grid_pred(c):
     eta = g.eta_grid
     ref = gridref.GridRef(eta, [g.getSpline(i) for i in range(4)], consts)
     F = sim.equilibrium_like_field(cfg, eta, c["seed"])
-    for name, want in (("pert", ref.rho(F, True)), ("full", ref.rho(F, False)), ("init_pert", ref.rho(ref.init_f(), True))):
+    pert = ref.rho(F, True)
+    for name, want in (("pert", pert), ("full", ref.rho(F, False)), ("init_pert", ref.rho(ref.init_f(), True)),
+                       ("pert_second_finder", pert), ("pert_first_again", pert)):
         got = sim.assemble([r[name] for r in res], shape, name)
         scale = float(np.abs(ref.rho(F, False)).max())
         err = np.abs(got - want)
@@ -173,7 +185,7 @@ def grid_pred(c):
             raise Violation("C16:grid:" + name, "process grid %s: density '%s' at global (r,theta,z)=%s is %r, reference with the "
                             "equilibrium of global radius %d gives %r" % (c["nprocs"], name, idx, got[idx], idx[0], want[idx]))
     return {"nontrivial": c["nprocs"][0] > 1, "labels": ["P=%d" % P, "complex" if c["complex"] else "float",
-                                                          "r-split" if c["nprocs"][0] > 1 else "r-whole"], "evals": 3}
+                                                          "r-split" if c["nprocs"][0] > 1 else "r-whole"], "evals": 5}
 
 
 SUBS = {"kernel": Sub(kernel_pred, strategy=kernel_cases), "grid": Sub(grid_pred, strategy=grid_cases)}
